@@ -127,7 +127,7 @@ package queue
 
 //@ func (*MemoryStore).Dequeue
 //@   requires s != nil
-//@   modifies s.items, s.leases, s.lastPrune, s.evictionsTotalByReason, s.order, Envelope.State, Envelope.Attempt, Envelope.LeaseID, Envelope.LeaseUntil, Envelope.NextRunAt, Envelope.DeadReason, storeNow
+//@   modifies s.items, s.leases, s.lastPrune, s.evictionsTotalByReason, field(s.evictionsTotalByReason), lastEvicted, s.order, Envelope.State, Envelope.Attempt, Envelope.LeaseID, Envelope.LeaseUntil, Envelope.NextRunAt, Envelope.DeadReason, storeNow
 //@   loop 2 invariant [wf_J3a] J3a(s)
 //@   loop 2 invariant [wf_J3b] J3b(s)
 //@   loop 2 invariant [wf_J4] J4(s)
